@@ -70,3 +70,76 @@ def EInstr.canon : EInstr → EInstr
 
 end Spec
 end Hera
+
+namespace Hera
+namespace Spec
+
+def condOfCode : Nat → Option Cond
+  | 0 => some .always | 2 => some .l | 3 => some .ge | 4 => some .le | 5 => some .g | 6 => some .ule | 7 => some .ug
+  | 8 => some .z | 9 => some .nz | 10 => some .c | 11 => some .nc | 12 => some .s | 13 => some .ns | 14 => some .v
+  | 15 => some .nv | _ => none
+
+/-- The HERA decoding table, written arithmetically (fields by division and remainder): the instruction a 16-bit word
+    denotes, or `none` when the word is not an instruction. -/
+def decode (w : Nat) : Option EInstr :=
+  let top := w / 4096
+  let d := w / 256 % 16
+  let a := w / 16 % 16
+  let b := w % 16
+  let lowb := w % 256
+  if w ≥ 65536 then none
+  else if top = 14 then some (.instr (.setlo d lowb))
+  else if top = 15 then some (.instr (.sethi d lowb))
+  else if top = 8 then some (.instr (.alu3 .and d a b))
+  else if top = 9 then some (.instr (.alu3 .or d a b))
+  else if top = 10 then some (.instr (.alu3 .add d a b))
+  else if top = 11 then some (.instr (.alu3 .sub d a b))
+  else if top = 12 then some (.instr (.alu3 .mul d a b))
+  else if top = 13 then some (.instr (.alu3 .xor d a b))
+  else if top = 4 ∨ top = 5 then some (.instr (.load d ((top - 4) * 16 + a) b))
+  else if top = 6 ∨ top = 7 then some (.instr (.store d ((top - 6) * 16 + a) b))
+  else if top = 0 then (condOfCode d).map (fun c => .instr (.brr c lowb))
+  else if top = 1 then (if a = 0 then (condOfCode d).map (fun c => .instr (.br c b)) else none)
+  else if top = 2 then
+    (if d = 0 then some (.instr (.call a b))
+     else if d = 1 then some (.instr (.ret a b))
+     else if d = 2 ∧ a = 0 then some (.swi b)
+     else if d = 3 ∧ a = 0 ∧ b = 0 then some .rti
+     else none)
+  else if top = 3 then
+    (if lowb ≥ 192 then some (.instr (.dec d (lowb - 192 + 1)))
+     else if lowb ≥ 128 then some (.instr (.inc d (lowb - 128 + 1)))
+     else if a = 0 then some (.instr (.shift .lsl d b))
+     else if a = 1 then some (.instr (.shift .lsr d b))
+     else if a = 2 then some (.instr (.shift .lsl8 d b))
+     else if a = 3 then some (.instr (.shift .lsr8 d b))
+     else if a = 4 then some (.instr (.shift .asl d b))
+     else if a = 5 then some (.instr (.shift .asr d b))
+     else if a = 7 ∧ b = 0 then some (.instr (.savef d))
+     else if a = 7 ∧ b = 8 then some (.instr (.rstrf d))
+     else if a = 6 then
+       (if d = 0 ∨ d = 1 then some (.instr (.fon ((d % 2) * 16 + b)))
+        else if d = 4 ∨ d = 5 then some (.instr (.fset5 ((d % 2) * 16 + b)))
+        else if d = 8 ∨ d = 9 then some (.instr (.foff ((d % 2) * 16 + b)))
+        else if d = 12 then some (.instr (.fset4 b))
+        else none)
+     else none)
+  else none
+
+/-- A word-level HERA machine: fetch the word at `pc`, decode it by the table, execute it by the architecture. -/
+def wordStep (code : List Nat) (σ : State) : Option State :=
+  if σ.halted ∨ σ.pc < 0 ∨ σ.pc ≥ code.length then none
+  else match code[σ.pc.toNat]? with
+    | none => none
+    | some w => match decode w with
+      | some (.instr i) => some (exec i σ)
+      | _ => none
+
+def wordRun (code : List Nat) : Nat → State → State
+  | 0, σ => σ
+  | n + 1, σ => match wordStep code σ with
+    | some σ' => wordRun code n σ'
+    | none => σ
+
+end Spec
+end Hera
